@@ -192,7 +192,7 @@ def group_outcomes(outs, fr, watch_mem=(), skip_pc=0):
                 if e1.ret is not None:
                     a = e1.ret.f if isinstance(e1.ret, Rec) else [e1.ret]
                     b = e0.ret.f if isinstance(e0.ret, Rec) else [e0.ret]
-                    pairs += [(x, y) for x, y in zip(a, b)]
+                    pairs += [(x, y) for x, y in zip(a, b) if isinstance(x, z3.ExprRef) and isinstance(y, z3.ExprRef) and z3.is_const(x) and not x.eq(y)]
         guard = z3.And(o.state.pc[skip_pc:]) if len(o.state.pc) > skip_pc else z3.BoolVal(True)
         if pairs:
             guard = z3.substitute(guard, *pairs)
